@@ -187,6 +187,9 @@ impl Check for C07 {
     }
     fn one_case(&self, data: &[u8], ctx: &mut Ctx) -> Outcome {
         let mut e = Ent::new(data);
+        if e.ratio(1, 12) {
+            return zero_sized_case(&mut e, ctx);
+        }
         if e.ratio(1, 3) {
             return native_case(&mut e, ctx);
         }
@@ -255,6 +258,86 @@ fn zero_sized_or_big(v: &RVal) -> bool {
         RVal::Variant(_, x) => zero_sized_or_big(x),
         RVal::Func(..) | RVal::Service(_) => true,
         _ => false,
+    }
+}
+
+/// Long vectors of zero-sized elements: every element must be charged although it occupies no input.
+fn zero_sized_case(e: &mut Ent, ctx: &mut Ctx) -> Outcome {
+    use crate::refmodel::rwire::put_uleb;
+    let n = *e.pick(&[1_000u64, 5_000, 20_000, 100_000]) + e.below(100) as u64;
+    let mut m = b"DIDL".to_vec();
+    let elem = e.below(3);
+    match elem {
+        0 => m.extend([1, 0x6d, 0x7f, 1, 0]),
+        1 => m.extend([1, 0x6d, 0x70, 1, 0]),
+        _ => m.extend([2, 0x6d, 1, 0x6c, 0, 1, 0]),
+    }
+    put_uleb(&mut m, n);
+    let reg = registry();
+    let native_name = match elem {
+        0 => "Vec<()>",
+        1 => "Vec<Reserved>",
+        _ => "Vec<EmptyRec>",
+    };
+    let expected: Vec<(&str, Option<Type>)> = vec![
+        ("same", None),
+        ("reserved", Some(candid::types::TypeInner::Reserved.into())),
+        ("opt-text", Some(candid::types::TypeInner::Opt(candid::types::TypeInner::Text.into()).into())),
+    ];
+    let (what, exp) = expected[e.below(expected.len())].clone();
+    ctx.class("zero-sized-vector");
+    let bytes = m.clone();
+    let native = e.bool() && what == "same";
+    let dec = if native {
+        let ops = match reg.iter().find(|o| o.name() == native_name) {
+            Some(o) => o.as_ref(),
+            None => reg.iter().find(|o| o.name() == "Vec<()>").unwrap().as_ref(),
+        };
+        if ops.name() != native_name {
+            return Outcome::Skip("no-native-type-for-element");
+        }
+        Decoder {
+            name: format!("get_value::<{}>", ops.name()),
+            run: Box::new(move |cfg| {
+                let unmetered = cfg.decoding_quota.is_none() && cfg.skipping_quota.is_none();
+                ops.decode(&bytes, Api::Builder, if unmetered { None } else { Some(cfg) })
+                    .map(|r| r.map(|dn| (vec![dn.canon], dn.cost.unwrap_or((None, None)))))
+            }),
+        }
+    } else {
+        let d = match decode_message(&bytes) {
+            Ok(d) => d,
+            Err(_) => return Outcome::Skip("not-a-valid-message"),
+        };
+        let ty: Type = match exp {
+            Some(t) => t,
+            None => {
+                let inner: Type = match elem {
+                    0 => candid::types::TypeInner::Null.into(),
+                    1 => candid::types::TypeInner::Reserved.into(),
+                    _ => candid::types::TypeInner::Record(vec![]).into(),
+                };
+                let _ = d;
+                candid::types::TypeInner::Vec(inner).into()
+            }
+        };
+        Decoder {
+            name: format!("untyped at {ty}"),
+            run: Box::new(move |cfg| guard(|| untyped_decode(&bytes, &TypeEnv::new(), &[ty.clone()], cfg))),
+        }
+    };
+    let describe = || format!("vec of {n} zero-sized elements ({}), expected {what}: {}", ["null", "reserved", "record {}"][elem], hex::encode(&m));
+    // every element is a wire value; untyped decoding and skipping charge the skipping quota too
+    let lower_s = if native { 0 } else { n };
+    match judge(&dec, e, n, lower_s, u64::MAX, &describe, ctx) {
+        Ok(ok) => {
+            if ok {
+                ctx.nontrivial(digest_of(&m) ^ digest_of(what.as_bytes()) ^ native as u64);
+            }
+            ctx.sample(describe);
+            Outcome::Pass
+        }
+        Err(f) => Outcome::Fail(f),
     }
 }
 
